@@ -20,7 +20,7 @@ func init() {
 		ID:    "C11",
 		Level: "exploration",
 		Race:  true,
-		Rule: "one run = seeded rounds of 1..3 foreign goroutines (started by compiled code) that each route an interpreted function or an interpreted type through a compiled entry point (sort.Slice, sort.Sort, strings.Map, fmt.Sprint/Sprintf via Stringer and error, io.ReadAll, sync.Once.Do, time.AfterFunc), under one seeded schedule; " +
+		Rule: "one run = seeded rounds of 1..3 foreign goroutines (started by compiled code) that each route an interpreted function or an interpreted type through a compiled entry point (sort.Slice, sort.Sort, sort.Stable, sort.Search, strings.Map, strings.FieldsFunc, strings.IndexFunc, fmt via Stringer and error, fmt.Fprintf and io.WriteString on an interpreted io.Writer, io.ReadAll, container/heap on an interpreted heap.Interface, sync.Once.Do, sync.Map.Range, sync.Pool.New, time.AfterFunc), under one seeded schedule; " +
 			"non-trivial = at least 2 tasks and 1 context switch; distinct = distinct (schedule hash, event log)",
 		Runs: func(tier string) int {
 			if tier == "thorough" {
@@ -36,7 +36,7 @@ func init() {
 		},
 		Run:        runC11,
 		FaultKinds: []string{"concurrent_foreign_callers", "starvation_bias_schedule", "timer_goroutine_entered_interpreter"},
-		ProbeNames: []string{"sort.Slice", "sort.Sort", "strings.Map", "fmt", "io.ReadAll", "sync.Once", "time.AfterFunc", "frames_recycled", "registry_entry_inherited_from_exited_task"},
+		ProbeNames: []string{"sort.Slice", "sort.Sort", "strings.Map", "fmt", "io.ReadAll", "sync.Once", "time.AfterFunc", "strings.FieldsFunc", "sort.Stable", "container/heap", "sync.Map.Range", "io.Writer", "sync.Pool", "frames_recycled", "registry_entry_inherited_from_exited_task"},
 		RealVsStub: []string{
 			"real: reflect.MakeFunc wrappers, proxy types for sort.Interface / fmt.Stringer / error / io.Reader, registry lookup for foreign goroutines, the compiled standard library entry points",
 			"stub: which goroutine runs next, wall clock (time.AfterFunc fires on the fake clock, on a goroutine created by the runtime)",
@@ -86,7 +86,7 @@ func runC11(t *testing.T, ch *sim.Choices, tier string) (o Outcome) {
 	o.probe("frames_recycled", mon.recycled)
 	o.probe("registry_entry_inherited_from_exited_task", mon.inherit)
 	for _, e := range flatLogs(itp.Logs, false, "") {
-		for _, k := range []string{"sort.Slice", "sort.Sort", "strings.Map", "fmt", "io.ReadAll", "sync.Once", "time.AfterFunc"} {
+		for _, k := range []string{"sort.Slice", "sort.Sort", "strings.Map", "fmt", "io.ReadAll", "sync.Once", "time.AfterFunc", "strings.FieldsFunc", "sort.Stable", "container/heap", "sync.Map.Range", "io.Writer", "sync.Pool"} {
 			if containsWord(e, k) {
 				o.probe(k, 1)
 				if k == "time.AfterFunc" {
